@@ -17,6 +17,13 @@ func init() {
 	core.Register(&core.Family{Name: "types", Exec: exec, Classify: classify})
 	core.Checks["C09"] = check
 	schema.C05Types = Repeatable
+	schema.TypeScopes = func(r *core.Run) {
+		n := 200
+		if r.Tier == "thorough" {
+			n = 2000
+		}
+		r.DirectionB("types", n, core.TLCOpts{Module: "TypesTrace", Cfg: "TypesTrace.cfg", HeapGB: 8})
+	}
 }
 
 type qn struct {
@@ -506,6 +513,7 @@ func genTypes(body []byte) *core.Verdict {
 		return s
 	}
 	samePfx := rng.Intn(5) == 0 // every module calls itself "pp" (importers use prefixes of their own)
+	var nested [][2]string      // (including submodule, submodule that only it includes)
 	for i := 0; i < nm; i++ {
 		name := fmt.Sprintf("m%d", i)
 		pfx := fmt.Sprintf("p%d", i)
@@ -532,6 +540,13 @@ func genTypes(body []byte) *core.Verdict {
 			}
 			sr.Top = newScope("top", 0, sn).id
 			subs = append(subs, sr)
+		}
+		if len(subs) == 2 && rng.Intn(2) == 0 {
+			// the second submodule is reached only through the first one's include (the module does not list it): the first
+			// one sees its top level, the module does not
+			r.Incs = r.Incs[:1]
+			subs[0].Incs = append(subs[0].Incs, subs[1].Name)
+			nested = append(nested, [2]string{subs[0].Name, subs[1].Name})
 		}
 		roots = append(roots, r)
 		roots = append(roots, subs...)
@@ -725,6 +740,32 @@ func genTypes(body []byte) *core.Verdict {
 		}
 		sc.uses = append(sc.uses, len(uses))
 		uses = append(uses, u)
+	}
+	// a typedef at the top level of a submodule that only another submodule includes, referred to from that one (directly
+	// or through a typedef of its own): nothing else in the family names it
+	for _, ns := range nested {
+		s1, s2 := rootOf[ns[0]], rootOf[ns[1]]
+		uniq++
+		scopes[s2.Top].tds = append(scopes[s2.Top].tds, len(tds))
+		tds = append(tds, gTd{Scope: s2.Top, Name: "tn", Base: qn{N: "int8"}, Own: emptyOwn(), Units: fmt.Sprintf("U%d", uniq)})
+		ref := qn{N: "tn"}
+		if rng.Intn(2) == 0 {
+			ref.P = s1.Pfx
+		}
+		if rng.Intn(2) == 0 {
+			scopes[s1.Top].tds = append(scopes[s1.Top].tds, len(tds))
+			tds = append(tds, gTd{Scope: s1.Top, Name: "tm", Base: ref, Own: emptyOwn()})
+			ref = qn{N: "tm"}
+		}
+		var in []*gScope
+		for _, sc := range scopes[1:] {
+			if sc.root == s1.Name && sc.kind != "rpc" && sc.kind != "action" {
+				in = append(in, sc)
+			}
+		}
+		sc := in[rng.Intn(len(in))]
+		sc.uses = append(sc.uses, len(uses))
+		uses = append(uses, gUse{Name: fmt.Sprintf("lf%d", len(uses)), Scope: sc.id, Ref: ref, Own: emptyOwn()})
 	}
 	// ---- rendering ----
 	typeStmt := func(ref qn, pat string, own gOwn) string {
